@@ -122,13 +122,13 @@ static struct _aliases
 static const char *msp430x_rpt[] = { "rpt", "rptz", "rptc",  NULL };
 
 static void operand_to_cg(
-  AsmContext *asm_context,
   struct _operand *operand,
-  int bw)
+  int bw,
+  bool no_cg)
 {
   if (operand->type != OPTYPE_IMMEDIATE) { return; }
 
-  if (asm_context->memory_read(asm_context->address) == 1) { return; }
+  if (no_cg) { return; }
 
   if (bw == 1 && operand->value == 0xff)   { operand->value = -1; }
   if (bw == 0 && operand->value == 0xffff) { operand->value = -1; }
@@ -659,6 +659,10 @@ int parse_instruction_msp430(AsmContext *asm_context, char *instr)
     }
   }
 
+  // Read the pass 1 flag before anything is emitted: an RPT prefix moves
+  // asm_context->address and in pass 2 overwrites the flag.
+  const bool no_cg = asm_context->memory_read(asm_context->address) == 1;
+
   // Do aliases first
   n = 0;
 
@@ -796,7 +800,7 @@ int parse_instruction_msp430(AsmContext *asm_context, char *instr)
           }
             else
           {
-            operand_to_cg(asm_context, &operands[0], bw);
+            operand_to_cg(&operands[0], bw, no_cg);
           }
 
           opcode |= bw << 6;
@@ -872,7 +876,7 @@ int parse_instruction_msp430(AsmContext *asm_context, char *instr)
             return -1;
           }
 
-          operand_to_cg(asm_context, &operands[0], bw);
+          operand_to_cg(&operands[0], bw, no_cg);
 
           opcode |= bw << 6;
 
@@ -1412,7 +1416,7 @@ int parse_instruction_msp430(AsmContext *asm_context, char *instr)
           }
             else
           {
-            operand_to_cg(asm_context, &operands[0], bw);
+            operand_to_cg(&operands[0], bw, no_cg);
           }
 
           if (size == 8) { al = 1; bw = 1; }
@@ -1465,7 +1469,7 @@ int parse_instruction_msp430(AsmContext *asm_context, char *instr)
             return -1;
           }
 
-          operand_to_cg(asm_context, &operands[0], bw);
+          operand_to_cg(&operands[0], bw, no_cg);
 
           if (size == 8) { al = 1; bw = 1; }
           else if (size == 16) { al = 1; bw = 0; }
